@@ -123,6 +123,12 @@ def run(ctx):
         trues = {b for b, bb in enumerate(iis.bbs) for st in bb["s"] if st["k"] == "a" and st["d"] == [0, []] and st["r"]["k"] == "use" and vf.const_of_operand(iis, st["r"]["o"]) == "1"}
         direct = [b for b, bb in enumerate(iis.bbs) for st in bb["s"] if st["k"] == "a" and st["d"] == [0, []] and not (st["r"]["k"] == "use" and vf.const_of_operand(iis, st["r"]["o"]) in ("0", "1"))]
         idx = [tt for _bb, tt in iis.calls() if (tt.get("f") or "").endswith("Index::index") and vf.const_of_operand(iis, tt["a"][1]) == '"method"']
+        # ... of the request value itself: a request judged by one of its parts (the first element of a batch, say)
+        # lets the rest of it through undecrypted
+        whole = bool(idx) and all(vf.producers(iis, tt["a"][0]) == {("arg", 1)} for tt in idx)
+        run.instance(R1, {"fn": "is_init_secure_api", "obligation": "the method that is tested is the request's own (`val[\"method\"]` of the parameter, not of a part of it)"}, held=whole)
+        if not whole:
+            run.finding(Finding(R1, iis.id, "is_init_secure_api judges a request by a part of it (e.g. the first element of a batch): the other elements are dispatched in plaintext without the session key", site=iis.loc()))
 
         def is_lit(o):
             """the operand is the literal "init_secure_api" or Some("init_secure_api")"""
